@@ -20,9 +20,9 @@ ValidSeqs(p) ==
              ELSE UNION {{<<t, u>> : u \in V1(Apply(r.s, t), lh, on \cup {t})} : t \in V1(r.s, lh, on)})
 GenNext ==
   /\ Len(hist) < MaxOps
-  /\ \/ \E t \in {t \in Txs : t \notin pool /\ Valid(St, t, LHeight)} : Submit(t)
+  /\ \/ \E t \in {t \in Txs : t \notin pool /\ Valid(St, t, LHeight)} : Submit(t, "*")
      \/ LET S == {t \in Txs : ~OnChain(t, ptr) /\ ~Confirmed(t)} IN
-        \E t \in RandomSubset(IF Cardinality(S) < 2 THEN Cardinality(S) ELSE 2, S) : Submit(t)
+        \E t \in RandomSubset(IF Cardinality(S) < 2 THEN Cardinality(S) ELSE 2, S) : Submit(t, "*")
      \/ \E p \in 1..n : \E seq \in RandomSubset(3, ValidSeqs(p)) : n < MaxBlocks /\ NewBlock(p, seq)
      \/ \E p \in RandomSubset(1, 1..n) : \E seq \in RandomSubset(1, {q \in TxSeqs : q # <<>>}) : MkBadBlock(p, seq)
      \/ \E b \in {c \in 2..n : Parent(c) = ptr} : Play(b, "*")
@@ -36,8 +36,8 @@ GenSpec == Init /\ [][GenNext]_vars
 (* C13 profile: fill the pool (all currently valid submissions), mine, occasionally restart / walk / peer block *)
 MinerNext ==
   /\ Len(hist) < MaxOps
-  /\ \/ \E t \in {t \in Txs : t \notin pool /\ Valid(St, t, LHeight)} : Submit(t)
-     \/ \E t \in {t \in Txs : t \notin pool /\ Valid(St, t, LHeight)} : Submit(t)
+  /\ \/ \E t \in {t \in Txs : t \notin pool /\ Valid(St, t, LHeight)} : Submit(t, "*")
+     \/ \E t \in {t \in Txs : t \notin pool /\ Valid(St, t, LHeight)} : Submit(t, "*")
      \/ (pool # {} /\ Mine(GoodOrder(Packable)))
      \/ (Cardinality(pool) >= 3 /\ Mine(GoodOrder(Packable)))
      \/ \E b \in RandomSubset(1, {0}) : Mine(GoodOrder(Packable))
